@@ -189,6 +189,35 @@ func (c *ctx) limits() {
 		}
 	}
 
+	// --- shared subtrees: a value in memory may use one sub-policy many times (240 distinct values spell a tree of
+	// 8^30 nodes). The complexity limit must refuse it after about a thousand nodes, not walk it.
+	{
+		p := free
+		for i := 0; i < 30; i++ {
+			of := make([]types.SpendPolicy, 8)
+			for k := range of {
+				of[k] = p
+			}
+			p = types.PolicyThreshold(8, of)
+		}
+		done := make(chan bool, 1)
+		go func() {
+			ok, _, _ := c.realVerify("limit", p, env{lockH, time.Unix(lockTs+1, 0), c.h0}, nil, nil)
+			done <- ok
+		}()
+		b.Eval(1)
+		b.Count("shared_subtree_policies_verified", 1)
+		select {
+		case ok := <-done:
+			if ok {
+				b.Violate("C14/limit/verify-accepts/shared-subtree-policy-of-8^30-nodes", "a policy of 8^30 nodes (30 levels of thresh(8,[p x 8]) over one shared value) is accepted", nil)
+			}
+		case <-time.After(20 * time.Second):
+			// between "refused after ~1000 nodes" (microseconds) and "walks 8^30 nodes" (never) lie many orders of magnitude
+			b.Violate("C14/limit/verify-does-not-return/shared-subtree-policy-of-8^30-nodes", "Verify of a policy of 8^30 nodes (30 levels of thresh(8,[p x 8]) sharing one value per level; depth within the limit) had not returned after 20 s: the complexity limit is consulted only after the whole tree has been walked", nil)
+		}
+	}
+
 	// --- decode depth
 	leaf := append([]byte{1}, le64(7)...)
 	for _, d := range []int{0, 1, 2, 30, 31, 32, 33, 34, 35, 40, 64, 100, 255, 1000, 100000, 1000000} {
